@@ -199,7 +199,12 @@ def _c12(ctx):
     m4c, nf2, nc2 = licrules.rule_clients(ctx, [NSP + c for c in ('Geodesic', 'GeodesicExact', 'GeodesicLine',
                                                                   'GeodesicLineExact', 'Rhumb', 'RhumbLine')], 'M5')
     m4c.floor('solver-internal call sites of gated functions', nc2, 50)
-    return [m1, m2, m4, lic, m4c]
+    m2c, nfc, nob = licrules.rule_M2c(ctx)
+    m2c.floor('gated functions', nfc, 12)
+    m2c.floor('exit x output pairs', nob, 80)
+    m6, n6 = licrules.rule_M6(ctx)
+    m6.floor('members bound to conditional outputs', n6, 2)
+    return [m1, m2, m2c, m4, lic, m4c, m6]
 
 
 def _c09(ctx):
